@@ -3,20 +3,29 @@ from props import progs
 from props.progs import replay  # noqa
 
 GEN = 'copy'
-RULE = ("histories: build nested lists/dictionaries and objects, copy them by 令 / = / multi-declaration / element assignment / loop "
-        "variables, then interleave mutations through random names and paths (element and key assignment, 后增 前增 左移 右移, 自增 自减 on "
-        "numbers held by a variable / stored at any depth / handed out as loop item or position, property writes and mutating methods "
-        "on objects), displaying every variable after each step; literals evaluated repeatedly (loop bodies, methods called several "
-        "times): list / dictionary literals changed after being bound, number literals changed in place where they stand (receiver of "
-        "自增/自减, literal argument of a callee that bumps its input, item of a list / dictionary literal). "
-        "Non-trivial = at least one copy and one later mutation in the history.")
+RULE = ("histories: build nested lists/dictionaries (dictionaries of 3–4 keys among them, also below a list / a key) and objects, copy them by "
+        "令 / = / multi-declaration / element, key and property assignment / an argument stored by 后增 前增 新增 添加 写入 (also into the very "
+        "variable it comes from) / loop variables / the defaults every new object gets; the source of a copy is a whole variable or a part "
+        "of one (甲#1, 甲#“a”, 物之表); then interleave mutations through random names and paths (element and key assignment, 后增 前增 左移 右移, "
+        "新增 at the first / an inner / the last place, past the end and counted from the end, 移除 of the first / a middle / the last / the "
+        "only / an absent key, 写入 of a present / new / formerly removed key, 自增 自减 on numbers held by a variable / stored at any depth / "
+        "handed out as loop item or position, property writes and mutating methods on objects, removal and writing through a loop "
+        "variable), displaying every variable (and every object's 表) after each step and looking at some holder through an "
+        "order-dependent view (所有索引 所有值 长度, 遍历 with one or two names, 首项 末项 逆序), at the end at the key order of the "
+        "dictionaries of every holder; literals evaluated repeatedly (loop bodies, methods called several times): list / dictionary "
+        "literals changed after being bound (also: bound, copied, a key removed through one of the two names), number literals changed "
+        "in place where they stand (receiver of 自增/自减, literal argument of a callee that bumps its input, item of a list / dictionary "
+        "literal). Non-trivial = at least one copy and one later mutation in the history.")
 ASSUMPTIONS = ["Go slice backing arrays are not modelled (the one sharing site, 合并, was repaired)",
-               "method arguments and 得到 bind references in the real code; the property does not name them and generators do not mutate through them"]
+               "method arguments and 得到 bind references in the real code; the property does not name them and generators do not mutate through them",
+               "生成JSON is outside the evaluator model / spec semantics (imports): the order-dependent views used are display, 所有索引, 所有值 and 遍历"]
 PARTIAL = "spec semantics treats lists/dictionaries as values; programs that depend on what a mutating built-in returns are 'unspecified' and skipped (counted)"
 
 
 def run(ctx):
     g = progs.G(ctx.rng)
-    n = ctx.n(1500, 40000)
+    n = ctx.n(1250, 36000)
     ps = [g.copy_program(ctx.rng.randint(4, 14 if ctx.quick() else 40)) for _ in range(n)]
+    for k, v in sorted(g.stats.items()):
+        ctx.count('copy-gen:' + k, v)
     progs.run_stream(ctx, 'copy', ps, nontrivial=lambda src, go: src.count('设为量') + src.count(' = 量') >= 1 and ('后增' in src or '#' in src))
